@@ -3,6 +3,10 @@
    completions of awaited operations, in any interleaving (Conc/Lifecycle.v). *)
 From Coq Require Import List Bool Arith.
 From EN Require Import Conc.Lifecycle Proofs.C18_proofs Proofs.C18_theorems Conc.Standalone Proofs.C18_standalone Proofs.C18_threads.
+From Coq Require Import ZArith.
+From EN Require Lib.Bytes Lib.Sx Run.C18 Proofs.C18_runner.
+Close Scope Z_scope.
+Open Scope nat_scope.
 Import ListNotations.
 
 (* At most one serve_forever is ever past its entry check, and a serve_forever issued while one is running is refused
@@ -148,6 +152,17 @@ Theorem standalone_no_deadlock :
     (exists id, tstep s (TStep id) <> None) \/ tstep s TAsyncEnd <> None.
 Proof. exact no_deadlock_threads. Qed.
 Print Assumptions standalone_no_deadlock.
+
+(* NetworkServerThread (servers/threads_helper.py; its run() shape is regenerated into nst_sets_up_in_finally): in the
+   big-step model of the standalone servers a start() call is released as soon as the thread's serve_forever has ended,
+   whatever its outcome (also when it returned normally without ever having been up: shutdown during the set-up). *)
+Theorem server_thread_start_released_when_thread_ended :
+  forall (x : EN.Run.C18.sst) (up : bool) (si ri : nat) (l : list (nat * nat)),
+    nth ri (EN.Run.C18.sstat x) 0%Z <> 0%Z ->
+    EN.Run.C18.resolve_starts x up ((si, ri) :: l) =
+      (EN.Run.C18.set_nth si 1%Z (fst (EN.Run.C18.resolve_starts x up l)), snd (EN.Run.C18.resolve_starts x up l)).
+Proof. exact EN.Proofs.C18_runner.start_released_when_thread_ended. Qed.
+Print Assumptions server_thread_start_released_when_thread_ended.
 
 Example reachable_busy_state :
   exists s, reachable s /\ busy s /\ serves s = [(0, SWait)] /\ dying s = 1.
